@@ -173,6 +173,15 @@ pub fn real_now_ns() -> u64 {
     ts.tv_sec as u64 * 1_000_000_000 + ts.tv_nsec as u64
 }
 
+/// CPU time consumed by this process (all threads), read past the interposed clock.
+pub fn cpu_now_ns() -> u64 {
+    let mut ts = libc::timespec { tv_sec: 0, tv_nsec: 0 };
+    unsafe {
+        libc::syscall(libc::SYS_clock_gettime, libc::CLOCK_PROCESS_CPUTIME_ID, &mut ts as *mut libc::timespec);
+    }
+    ts.tv_sec as u64 * 1_000_000_000 + ts.tv_nsec as u64
+}
+
 fn sim_clock_read() -> u64 {
     let idx = CLOCK_READS.with(|c| {
         let v = c.get();
